@@ -21,6 +21,11 @@ func (s *subContext) GetMatch(idx int) string {
 	if idx >= 0 && idx < len(s.vals) {
 		return s.vals[idx]
 	}
+	if idx < 0 && s.parent != nil {
+		// not a value of the sub-expression: let the parent answer (it has no negative group
+		// either), so that the look-up is still seen - {time live} relies on it to stay dynamic
+		return s.parent.GetMatch(idx)
+	}
 	return ""
 }
 
